@@ -27,3 +27,17 @@
 #define GEMV_REC_OK (g_gemv_cnt == 1 ==> (g_gemv_n == SEGSZE(g_c) && g_gemv_aoff <= RECT_OFF(g_c, g_row) && RECT_OFF(g_c, g_row) < g_gemv_aoff + g_gemv_m))
 #define TRSV_REC_OK (g_trsv_cnt == 1 ==> (g_trsv_aoff == TRI_OFF(g_c) && g_trsv_n == SEGSZE(g_c)))
 #define B2I(x) ((x) ? 1 : 0)
+/* BLAS call records (one object, so that the frame has one target): total calls; calls, and their arguments, that concern the ghost
+ * panel column g_c (trsv) resp. the ghost row g_row below the diagonal block of column g_c (gemv) */
+#ifndef SPEC_EXPAND
+struct blas_rec { int trsv_calls, gemv_calls, trsv_cnt, gemv_cnt; int_t trsv_aoff, trsv_n, gemv_aoff, gemv_m, gemv_n; };
+#endif
+#define g_trsv_calls g_blas.trsv_calls
+#define g_gemv_calls g_blas.gemv_calls
+#define g_trsv_cnt g_blas.trsv_cnt
+#define g_gemv_cnt g_blas.gemv_cnt
+#define g_trsv_aoff g_blas.trsv_aoff
+#define g_trsv_n g_blas.trsv_n
+#define g_gemv_aoff g_blas.gemv_aoff
+#define g_gemv_m g_blas.gemv_m
+#define g_gemv_n g_blas.gemv_n
